@@ -149,6 +149,11 @@ func replayScen(a []string) string {
 	if raceEnabled {
 		return scenJSON(a)
 	}
+	return replayGeneric("racescen " + strings.Join(a, " "))
+}
+
+// replayGeneric: rebuild the detector child and run one request up to 24 times under different delay seeds.
+func replayGeneric(req string) string {
 	parent := filepath.Join(HarnessSrcDir(), "..", ".cache") // /verif/.cache (or the cache dir of a scratch build)
 	if fi, err := os.Stat(parent); err != nil || !fi.IsDir() {
 		parent = filepath.Join(HarnessSrcDir(), "..")
@@ -162,7 +167,6 @@ func replayScen(a []string) string {
 	if err != nil {
 		return "cannot build the race child: " + err.Error()
 	}
-	req := "racescen " + strings.Join(a, " ")
 	for k := int64(1); k <= 24; k++ {
 		if err := rr.start(k, []int{0, 60, 300}[k%3], 30); err != nil {
 			return "cannot start the race child: " + err.Error()
@@ -184,6 +188,15 @@ func replayScen(a []string) string {
 
 func main() {
 	RegisterOp("racescen", replayScen) // racescen <seed> <nconn> <ncallers> <ms>
+	RegisterOp("racenf", func(a []string) string { // racenf <seed> <nconn> <ms>: sub-package filter off, detector child only
+		if !raceEnabled {
+			return replayGeneric("racenf " + strings.Join(a, " "))
+		}
+		seed, _ := strconv.ParseInt(a[0], 10, 64)
+		n, _ := strconv.Atoi(a[1])
+		msn, _ := strconv.Atoi(a[2])
+		return runNoFilter(seed, n, msn)
+	})
 	RegisterOp("racew", func(a []string) string { // racew <seed> <slow 0|1>: the C12/C13 scenario kinds, detector child only
 		if !raceEnabled {
 			return "n/a outside the detector child"
@@ -216,7 +229,7 @@ func main() {
 }
 
 func c18(c *Ctx) {
-	c.Rule = "tie (i): the call graph, then one request per distinct (function, struct, field, read/write) selector site of package service on the statically placed structs, every static call / go / closure-sent-on-a-channel edge between its functions and every variable captured by a closure that runs in another goroutine (exhaustive over the current source); the model side derives the goroutine class(es) reaching each function from its root table and judges each site by (class, location, role); tie (ii): scenarios of 6..20 terminals (first messages, duplicate keys, heartbeats, locations, authentication, sub-packaged and unsupported messages, answers / missing answers / duplicate answers, FIN / close / RST) x 2..6 callers (7 command types, with and without timer, 1..100 ms timeouts) on one server built with -race and seeded delays before every channel operation of connection.go; every 8th round additionally the 22 (thorough: all 26) command / teardown scenario kinds of C12/C13 (lib/conc_writer.go GenW/RunW) run in parallel on the same server; non-trivial = a scenario in which commands were answered AND timed out or were cut by a teardown; distinct = distinct scenario seeds"
+	c.Rule = "tie (i): the call graph, then one request per distinct (function, struct, field, read/write) selector site of package service on the statically placed structs, every static call / go / closure-sent-on-a-channel edge between its functions and every variable captured by a closure that runs in another goroutine (exhaustive over the current source); the model side derives the goroutine class(es) reaching each function from its root table and judges each site by (class, location, role); tie (ii): scenarios of 6..20 terminals (first messages, duplicate keys, heartbeats, locations, authentication, sub-packaged and unsupported messages, answers / missing answers / duplicate answers, FIN / close / RST) x 2..6 callers (7 command types, with and without timer, 1..100 ms timeouts) on one server built with -race and seeded delays before every channel operation of connection.go; every 8th round a scenario on a second server with the sub-package filter off (WithHasSubcontract(false), 4..12 terminals sending sub-packaged 0x0200/0x0801 transfers, an eventer that reads msg.Header in OnReadExecutionEvent), and every 8th round additionally the 22 (thorough: all 26) command / teardown scenario kinds of C12/C13 (lib/conc_writer.go GenW/RunW) run in parallel on the same server; non-trivial = a scenario in which commands were answered AND timed out or were cut by a teardown; distinct = distinct scenario seeds"
 	rng := c.Rng
 	// ---- tie (i): access sites
 	sites, edges, caps, err := listSites(ServiceDir())
@@ -305,6 +318,20 @@ func c18(c *Ctx) {
 			} else if wst == "crash" {
 				fatal++
 				c.Violate(Violation{Signature: "C18/crash", What: "the server under the race detector died", Input: wreq,
+					Observed: panicHead(rr.ch.Stderr()), Required: required + "; and no scenario crashes the server"})
+				continue
+			}
+		}
+		if n%8 == 6 { // the sub-package filter switched off (a second server in the child), handlers reading the header
+			nreq := fmt.Sprintf("racenf %d %d %d", rng.Int63n(1<<30), 4+rng.Intn(9), ms)
+			_, nst := rr.ch.Ask(nreq, 120*time.Second)
+			rr.collect(c, nreq, seenSig)
+			if nst == "ok" {
+				tot["filter_off_rounds"]++
+				c.Eval(nreq, true)
+			} else if nst == "crash" {
+				fatal++
+				c.Violate(Violation{Signature: "C18/crash", What: "the server under the race detector died", Input: nreq,
 					Observed: panicHead(rr.ch.Stderr()), Required: required + "; and no scenario crashes the server"})
 				continue
 			}
